@@ -39,7 +39,7 @@ from zcsim.world import SimWorld
 ID = "C06"
 LEVEL = "exploration"
 HAS_CLOCK = False
-BUDGET = {"quick": (4000, 240), "thorough": (300000, 1200)}
+BUDGET = {"quick": (20000, 240), "thorough": (300000, 1200)}
 RULE = (
     "A case is (schema, text, cut layout, variant): text valid or with one "
     "typed text fault; 1..3 balanced line ranges (nested cuts allowed, "
